@@ -1565,7 +1565,7 @@ func mentionsEvents(e Expr) bool {
 	switch e := e.(type) {
 	case *ECall:
 		switch e.Fn {
-		case "calls", "callarg", "callres", "before":
+		case "calls", "callarg", "callres", "before", "panicked":
 			return true
 		}
 		for _, a := range e.Args {
